@@ -589,6 +589,16 @@ class Lib:
                     raise OutOfSubset("non-integer index")
                 I.oblige("%s/safety/index-in-range" % ctx.speckey, z3.And(i >= 0, i < cont.length), 'safety')
                 return cont.get(i)
+            if idx[0] == 'tuple' and len(idx[1]) == 2 and idx[1][0] == ('slice', None, None, None) and cont.width is not None:
+                # a[:, c] and a[:, lo:hi] of a 2-D array with a fixed number of columns
+                sel = idx[1][1]
+                w = cont.width
+                if sel[0] == 'index' and isinstance(sel[1], int) and not isinstance(sel[1], bool) and -w <= sel[1] < w:
+                    return SymSeq(cont.length, [cont.cols[sel[1]]], None, cont.kind, "%s[:,%d]" % (cont.name, sel[1]))
+                if sel[0] == 'slice' and sel[3] is None and all(x is None or (isinstance(x, int) and not isinstance(x, bool)) for x in sel[1:3]):
+                    cols = cont.cols[slice(sel[1], sel[2])]
+                    if cols:
+                        return SymSeq(cont.length, list(cols), len(cols), cont.kind, "%s[:,%s:%s]" % (cont.name, sel[1], sel[2]))
             if idx[0] == 'slice' and idx[2] is None and idx[3] is None and isinstance(idx[1], (int, Sym)) and not isinstance(idx[1], bool):
                 lo = to_z3(idx[1])
                 if lo.sort() != z3.IntSort():
